@@ -12,7 +12,8 @@ def conserve_case(rng, features=None):
     """-> (protocol line, meta, tags) or None when rendering raised (that is C02's business)."""
     doc = widegen.gen(rng, features)
     try:
-        document = docs.render(doc['html'])
+        with docs.time_limit(20):
+            document = docs.render(doc['html'])
     except Exception as exc:  # noqa: BLE001
         return None, {'html': doc['html'], 'error': type(exc).__name__}, ['render-error']
     pages = widegen.page_words(document)
@@ -187,7 +188,8 @@ def fits_cases(rng, features=None, focus=None):
     """-> list of (line, meta, tags), one per page."""
     doc = widegen.gen(rng, features, focus)
     try:
-        document = docs.render(doc['html'])
+        with docs.time_limit(20):
+            document = docs.render(doc['html'])
     except Exception as exc:  # noqa: BLE001
         return [(None, {'html': doc['html'], 'error': type(exc).__name__}, ['render-error'])]
     out = []
@@ -217,7 +219,8 @@ def family_cases(prop_id, rng=None, fraction=1.0):
         if rng is not None and rng.random() > fraction:
             continue
         try:
-            document = docs.render(html)
+            with docs.time_limit(20):
+                document = docs.render(html)
         except Exception as exc:  # noqa: BLE001
             cases.append(('error', None, {'doc_id': doc_id, 'html': html, 'error': type(exc).__name__}))
             continue
